@@ -191,7 +191,7 @@ impl Prop for C07 {
         (ev, confirmed)
     }
     fn rule(&self) -> String {
-        "generated over the full product: latitude incl. +-90/+-66.56/0, longitude, elevation, GMT offset anywhere in [-12,12] (uncoupled), 9 methods x 15 policies (substitute latitude in [-90,90]) x 4 roundings x schools, angles [0,25], intervals [0,180], 7 minute offsets in [-1500,1500], weather, dates 1600-2399. Non-trivial = at least one entry Invalid or flagged extreme (code paths beyond the happy path); distinct by hash of the case".into()
+        "generated over the full product: latitude incl. +-90/+-66.56/0, longitude, elevation, GMT offset anywhere in [-12,12] (uncoupled), 9 methods x 15 policies (substitute latitude in [-90,90]) x 4 roundings x schools, angles [0,25], intervals [0,180], 7 minute offsets in [-1500,1500], weather, dates 1600-2399. One case in 31 additionally drives one prayer onto the midnight wrap by bisecting its minute offset (+-8 ulps, all four rounding modes); one in 40 uses a substitute latitude equal to the site's own. Non-trivial = at least one entry Invalid or flagged extreme (code paths beyond the happy path); distinct by hash of the case".into()
     }
     fn assumptions(&self) -> Vec<String> {
         vec![
